@@ -1414,6 +1414,13 @@ pub fn render(doc: &ADoc, choices: Vec<u16>, line_end_variants: bool) -> Rendere
         r.ws0();
         r.out.push_str("?>");
         r.ws0();
+    } else {
+        // without an XML declaration white space may come first (prolog ::= XMLDecl? Misc*, and S is a Misc)
+        let before = r.out.len();
+        r.ws0();
+        if r.out.len() > before {
+            r.label("r:leading-ws-without-declaration");
+        }
     }
     for m in &doc.pre {
         if let Some(j) = r.misc(m) {
